@@ -260,6 +260,21 @@ func (e *Env) eval(ex ast.Expr) Val {
 					return p
 				}
 			}
+			// &x.f where f is a nested struct field of *x: the sub-object reference
+			if sel, ok := n.X.(*ast.SelectorExpr); ok {
+				bx := e.eval(sel.X)
+				if bx.Typ != nil {
+					if pt, ok := bx.Typ.Underlying().(*types.Pointer); ok {
+						if stt, ok := pt.Elem().Underlying().(*types.Struct); ok {
+							for i := 0; i < stt.NumFields(); i++ {
+								if stt.Field(i).Name() == sel.Sel.Name && isStruct(stt.Field(i).Type()) {
+									return Val{Typ: types.NewPointer(stt.Field(i).Type()), C: []*T{e.st.subRef(bx.C[0], pt.Elem(), i)}}
+								}
+							}
+						}
+					}
+				}
+			}
 			e.fail("cannot take the address of this expression in a contract")
 		}
 		v := e.eval(n.X)
